@@ -1,6 +1,10 @@
 package rules
 
-import "canvascheck/internal/core"
+import (
+	"canvascheck/internal/core"
+
+	"golang.org/x/tools/go/ssa"
+)
 
 func init() {
 	register("C08", &Property{
@@ -49,6 +53,36 @@ func init() {
 			E2CursorDomain(c, r, nil)
 			E2RecordLayout(c, r)
 			E2RecordConstruction(c, r)
+		},
+	})
+}
+
+var c11ReviewedPanics = map[string]string{
+	`(*canvas.FontFamily).Face|"font family is empty"`: "svgParser.getFontFace calls Face only after FontFamily.LoadSystemFont returned nil, which stores the font in family.fonts (font.go LoadFontFile: family.fonts[style] = font); families cached in svg.fonts were stored after the same success",
+}
+
+var c17ReviewedPanics = map[string]string{}
+
+func init() {
+	register("C11", &Property{
+		Title: "Textual path formats round-trip and parsers never panic",
+		Explanation: "Decides, for every input string: (1) each index of the input bytes in ParseSVGPath/skipCommaWhitespace is dominated by a bound check on every path through the function (path-sensitive guard facts over the AST, short-circuit aware); the per-command number-count table fits the number buffer; (2) no explicit panic(...) in the canvas module is reachable in the VTA call graph from ParseSVGPath or ParseSVG (restricted to the import closure of package canvas, since no value of another package's type can exist in that call tree) except the reviewed sites listed in the evidence. NOT decided: round-trip equality and number minification, implicit run-time panics other than the named index guards, termination, panics inside third-party Go dependencies (font parsing, shaping).",
+		Assumptions: []string{"cursor variables are non-negative (initialised to 0 and only incremented)", "strconv.ParseFloat (tdewolff/parse) returns 0 <= n <= len(b)", "third-party dependencies are trusted not to panic"},
+		Run: func(c *core.Ctx, r *core.Report) {
+			E4ParserGuards(c, r)
+			r.Rule("E4.panic-reach", "no explicit panic(...) call in the module or its Go dependencies is reachable in the VTA call graph from ParseSVGPath or ParseSVG, except sites in the reviewed table (function + message -> why no parser input reaches it)")
+			roots := []*ssa.Function{c.SSAFunc("", "ParseSVGPath"), c.SSAFunc("", "ParseSVG")}
+			E4PanicReachability(c, r, "E4.panic-reach", roots, c11ReviewedPanics, true)
+		},
+	})
+	register("C17", &Property{
+		Title: "Line breaking returns a feasible, optimal Knuth-Plass solution",
+		Explanation: "Decides one clause only, 'terminates with a result for any sequence of items' in its no-panic part: every index of the caller-supplied item slice in Linebreak and the linebreaker methods is dominated by a bound check or is an index parameter whose bound is established at every call site (interprocedural index contract), and no explicit panic is reachable from Linebreak. NOT decided: legality of breakpoints, feasibility, optimality, relaxation of the tolerance, termination.",
+		Assumptions: []string{"lb.items[active.Position] (a position stored earlier from a checked index) is listed as unclassified, not decided"},
+		Run: func(c *core.Ctx, r *core.Report) {
+			E4LinebreakGuards(c, r)
+			r.Rule("E4.panic-reach-linebreak", "no explicit panic(...) is reachable from text.Linebreak")
+			E4PanicReachability(c, r, "E4.panic-reach-linebreak", []*ssa.Function{c.SSAFunc("text", "Linebreak")}, c17ReviewedPanics, true)
 		},
 	})
 }
